@@ -68,9 +68,9 @@ def _spec_hash(module="MC_Doc"):
     return h
 
 
-def _cached_tlc(tag, cfg, **kw):
+def _cached_tlc(tag, cfg, module="MC_Doc", **kw):
     """TLC's enumeration does not depend on the repository: cache exports by spec+cfg hash."""
-    h = _spec_hash()
+    h = _spec_hash(module)
     h.update(cfg.encode())
     h.update(json.dumps(kw, sort_keys=True).encode())
     key = h.hexdigest()[:20]
@@ -81,9 +81,9 @@ def _cached_tlc(tag, cfg, **kw):
             lines = [json.loads(l) for l in fh]
         meta["cached"] = True
         return lines, meta
-    res = run_tlc("MC_Doc", cfg, coverage=False, **kw)
+    res = run_tlc(module, cfg, coverage=False, **kw)
     if not res.ok:
-        raise MachineryError("TLC failed on MC_Doc:\n" + res.raw_tail[-3000:])
+        raise MachineryError(f"TLC failed on {module}:\n" + res.raw_tail[-3000:])
     meta = dict(states=res.states, distinct=res.distinct, depth=res.depth, wall=res.wall,
                 cached=False)
     os.makedirs(CACHE, exist_ok=True)
